@@ -3,6 +3,8 @@
 -/
 import C4E.Vesting
 import C4E.Lemmas.AListLemmas
+import C4E.Lemmas.SortLemmas
+import C4E.Lemmas.VestBacked
 namespace C4E.Props.C17
 open C4E C4E.Vest
 
@@ -50,6 +52,340 @@ theorem summary_shape (s : State) (g : Bool) (r : Summary) (h : summary s g = so
   · rename_i v l _
     cases h
     exact ⟨rfl, l, rfl⟩
+
+/-! ### lineage through the real handlers -/
+
+/-- the address is recorded as genesis-derived -/
+def derived (s : State) (a : String) : Bool :=
+  match s.traces.get? a with
+  | some t => t.isGenesisOrFromGenesis
+  | none => false
+
+/-- trace and pool stores hold one entry per address (they are key-value stores) -/
+def StoresOk (s : State) : Prop := KeysNodup s.traces ∧ KeysNodup s.pools
+
+theorem appendTrace_get_self (s : State) (a : String) (fp fa : Bool) (h : KeysNodup s.traces) :
+    (s.appendTrace a fp fa).traces.get? a
+      = some { id := s.traceCount, address := a, genesis := false, fromGenesisPool := fp, fromGenesisAccount := fa } := by
+  unfold State.appendTrace
+  simp only []
+  rw [get?_sortBy _ _ _ (keysNodup_set _ _ _ h), AList.get?_set_self]
+
+theorem appendTrace_get_other (s : State) (a b : String) (fp fa : Bool) (h : KeysNodup s.traces) (hb : b ≠ a) :
+    (s.appendTrace a fp fa).traces.get? b = s.traces.get? b := by
+  unfold State.appendTrace
+  simp only []
+  rw [get?_sortBy _ _ _ (keysNodup_set _ _ _ h), AList.get?_set_other _ _ _ _ hb]
+
+theorem appendTrace_nodup (s : State) (a : String) (fp fa : Bool) (h : KeysNodup s.traces) :
+    KeysNodup (s.appendTrace a fp fa).traces := by
+  unfold State.appendTrace
+  exact keysNodup_sortBy _ _ (keysNodup_set _ _ _ h)
+
+theorem setPools_get_self (s : State) (o : String) (ps : List Pool) (h : KeysNodup s.pools) :
+    (s.setPools o ps).pools.get? o = some ps := by
+  unfold State.setPools sortPools
+  simp only []
+  rw [get?_sortBy _ _ _ (keysNodup_set _ _ _ h), AList.get?_set_self]
+
+theorem setPools_nodup (s : State) (o : String) (ps : List Pool) (h : KeysNodup s.pools) :
+    KeysNodup (s.setPools o ps).pools := by
+  unfold State.setPools sortPools
+  exact keysNodup_sortBy _ _ (keysNodup_set _ _ _ h)
+
+theorem unlock_traces {s s1 : State} {owner : String} {amt : Coins} {a : Acct}
+    (h : unlockUnbonded s owner amt = .ok (s1, a)) : s1.traces = s.traces ∧ s1.traceCount = s.traceCount ∧ s1.pools = s.pools := by
+  unfold unlockUnbonded at h
+  split at h
+  · cases h
+  · split at h
+    · cases h
+    · split at h
+      · cases h
+      · split at h
+        · cases h
+        · split at h
+          · cases h
+          · split at h
+            · cases h
+            · split at h
+              · cases h; exact ⟨rfl, rfl, rfl⟩
+              · cases h
+              · cases h
+
+/-- **split / move lineage**: the recipient's record is genesis-derived exactly when the sender's
+    is; a sender without a record leaves no record; no other address's record changes -/
+theorem splitCoins_lineage (s : State) (src to : String) (amount : Coins) (res : Res)
+    (h : splitCoins s src to amount = .ok res) (ht : KeysNodup s.traces) :
+    KeysNodup res.st.traces ∧ res.st.pools = s.pools ∧
+    (∀ a, a ≠ to → res.st.traces.get? a = s.traces.get? a) ∧
+    (match s.traces.get? src with
+     | some tr => derived res.st to = tr.isGenesisOrFromGenesis
+     | none => res.st.traces.get? to = s.traces.get? to) := by
+  unfold splitCoins at h
+  split at h
+  · cases h
+  · split at h
+    · cases h
+    · split at h
+      · cases h
+      · split at h
+        · cases h
+        · cases h
+        · rename_i s1 vacc hu
+          obtain ⟨u1, u2, u3⟩ := unlock_traces hu
+          simp only [] at h
+          split at h
+          · cases h
+          · cases h
+          · rename_i s3 hsend
+            have := send_ok_eq _ _ _ _ _ hsend
+            subst this
+            generalize hS : ((newCva s1 to (sortBy (fun a b => a.1 < b.1) amount)
+                (if vacc.startS > unixSec s.now then vacc.startS else unixSec s.now) vacc.endS).applySend src to amount) = S3 at h
+            have e3 : S3.traces = s.traces := by rw [← hS]; exact u1
+            have e4 : S3.pools = s.pools := by rw [← hS]; exact u3
+            have hn : KeysNodup S3.traces := by rw [e3]; exact ht
+            split at h
+            · rename_i tr htr
+              cases h
+              rw [e3] at htr
+              refine ⟨appendTrace_nodup _ _ _ _ hn, e4, ?_, ?_⟩
+              · intro a ha
+                rw [appendTrace_get_other _ _ _ _ _ hn ha, e3]
+              · rw [htr]
+                simp only []
+                unfold derived
+                rw [appendTrace_get_self _ _ _ _ hn]
+                exact split_lineage tr _ _
+            · rename_i htr
+              cases h
+              rw [e3] at htr
+              refine ⟨hn, e4, (by intro a _; rw [e3]), ?_⟩
+              rw [htr]
+              simp only []
+              rw [e3]
+
+theorem sendFromModule_fields (s s' : State) (dst : String) (c : Coins) (h : s.sendFromModule dst c = .ok s') :
+    s'.pools = s.pools ∧ s'.traces = s.traces ∧ s'.traceCount = s.traceCount := by
+  unfold State.sendFromModule at h
+  split at h
+  · cases h
+  · have := send_ok_eq _ _ _ _ _ h
+    subst this; exact ⟨rfl, rfl, rfl⟩
+
+theorem lastNamed_map (name : String) (f : Pool → Pool) (hf : ∀ p, (f p).name = p.name) : ∀ ps : List Pool,
+    lastNamed name (ps.map f) = (lastNamed name ps).map f
+  | [] => rfl
+  | p :: ps => by
+    simp only [List.map_cons]
+    unfold lastNamed
+    rw [lastNamed_map name f hf ps]
+    cases lastNamed name ps with
+    | some q => rfl
+    | none => simp only [Option.map, hf]; split <;> rfl
+
+/-- what the withdrawal inside a pool send leaves behind: the owner's pools with only
+    `withdrawn` changed; traces untouched -/
+theorem withdrawAll_pools (s : State) (o : Addr) (w : Res) (h : withdrawAll s o = .ok w) (hp : KeysNodup s.pools) :
+    ∃ ps, s.pools.get? o.s = some ps ∧
+      w.st.pools.get? o.s = some (ps.map (fun p => { p with withdrawn := p.withdrawn + withdrawable s.now p })) ∧
+      w.st.traces = s.traces ∧ w.st.traceCount = s.traceCount ∧ KeysNodup w.st.pools := by
+  unfold withdrawAll at h
+  split at h
+  · cases h
+  · split at h
+    · cases h
+    · rename_i ps hps
+      split at h
+      · cases h
+      · simp only [] at h
+        split at h
+        · rename_i s1 hsent
+          split at h
+          · cases h
+          · cases h
+            have hs1 : s1.pools = s.pools ∧ s1.traces = s.traces ∧ s1.traceCount = s.traceCount := by
+              split at hsent
+              all_goals first | exact sendFromModule_fields _ _ _ _ hsent | (cases hsent; exact ⟨rfl, rfl, rfl⟩) | cases hsent
+            have hp1 : KeysNodup s1.pools := by rw [hs1.1]; exact hp
+            exact ⟨ps, hps, setPools_get_self s1 o.s _ hp1, hs1.2.1, hs1.2.2, setPools_nodup s1 o.s _ hp1⟩
+        · cases h
+        · cases h
+
+theorem newVestingAccount_traces (s s' : State) (to : String) (amount free le ve : Int)
+    (h : newVestingAccount s to amount free le ve = .ok s') : s'.traces = s.traces ∧ s'.traceCount = s.traceCount := by
+  unfold newVestingAccount at h
+  split at h
+  · cases h
+  · split at h
+    · cases h
+    · split at h
+      · cases h
+      · simp only [] at h
+        split at h
+        · cases h
+        · split at h
+          · rename_i s2 hsend
+            cases h
+            have := sendFromModule_fields _ _ _ _ hsend
+            exact ⟨this.2.1, this.2.2⟩
+          · cases h
+          · cases h
+
+/-- **pool-send lineage**: the recipient's record is genesis-derived exactly when the pool it was
+    sent from (the last pool of that name of the owner) is a genesis pool; nobody else's record
+    changes -/
+theorem sendToNew_lineage (s : State) (o to : Addr) (pool : String) (amount : Int) (restart : Bool) (res : Res)
+    (h : sendToNew s o to pool amount restart = .ok res) (hs : StoresOk s) :
+    KeysNodup res.st.traces ∧
+    (∀ a, a ≠ to.s → res.st.traces.get? a = s.traces.get? a) ∧
+    ∃ ps p, s.pools.get? o.s = some ps ∧ lastNamed pool ps = some p ∧ derived res.st to.s = p.genesisPool := by
+  obtain ⟨ht, hp⟩ := hs
+  unfold sendToNew at h
+  split at h
+  · cases h
+  · split at h
+    · cases h
+    · cases h
+    · rename_i w hw
+      obtain ⟨ps0, hps0, hwp, hwt, hwc, _⟩ := withdrawAll_pools s o w hw hp
+      simp only [] at h
+      split at h
+      · cases h
+      · rename_i ps hps
+        rw [hwp] at hps; cases hps
+        split at h
+        · cases h
+        · split at h
+          · cases h
+          · rename_i p hp'
+            rw [lastNamed_map pool (fun p => { p with withdrawn := p.withdrawn + withdrawable s.now p }) (fun _ => rfl)] at hp'
+            cases hl : lastNamed pool ps0 with
+            | none => rw [hl] at hp'; cases hp'
+            | some p0 =>
+              rw [hl] at hp'
+              simp only [Option.map, Option.some.injEq] at hp'
+              split at h
+              · cases h
+              · split at h
+                · cases h
+                · split at h
+                  · cases h
+                  · cases h
+                  · rename_i s2 hr
+                    cases h
+                    have ht2 : s2.traces = s.traces ∧ s2.traceCount = s.traceCount := by
+                      cases restart
+                      · simp only [Bool.false_eq_true, if_false] at hr
+                        have := newVestingAccount_traces _ _ _ _ _ _ _ hr
+                        exact ⟨this.1.trans hwt, this.2.trans hwc⟩
+                      · simp only [if_true] at hr
+                        have := newVestingAccount_traces _ _ _ _ _ _ _ hr
+                        exact ⟨this.1.trans hwt, this.2.trans hwc⟩
+                    have hn : KeysNodup (s2.setPools o.s (bumpLast pool amount
+                        (ps0.map (fun p => { p with withdrawn := p.withdrawn + withdrawable s.now p }))).1).traces := by
+                      show KeysNodup s2.traces; rw [ht2.1]; exact ht
+                    refine ⟨appendTrace_nodup _ _ _ _ hn, ?_, ps0, p0, hps0, hl, ?_⟩
+                    · intro a ha
+                      rw [appendTrace_get_other _ _ _ _ _ hn ha]
+                      show s2.traces.get? a = _
+                      rw [ht2.1]
+                    · unfold derived
+                      rw [appendTrace_get_self _ _ _ _ hn]
+                      simp only []
+                      rw [send_lineage]
+                      rw [← hp']
+
+theorem createPool_traces (s : State) (o : Addr) (name : String) (a dur : Int) (vt : String) (res : Res)
+    (h : createPool s o name a dur vt = .ok res) : res.st.traces = s.traces := by
+  unfold createPool at h
+  split at h
+  · cases h
+  · split at h
+    · cases h
+    · split at h
+      · cases h
+      · split at h
+        · cases h
+        · simp only [] at h
+          split at h
+          · cases h
+          · split at h
+            · rename_i s1 hsend
+              cases h
+              have := send_ok_eq _ _ _ _ _ hsend
+              subst this; rfl
+            · cases h
+            · cases h
+
+theorem withdrawAll_traces (s : State) (o : Addr) (res : Res) (h : withdrawAll s o = .ok res) :
+    res.st.traces = s.traces := by
+  unfold withdrawAll at h
+  split at h
+  · cases h
+  · split at h
+    · cases h
+    · split at h
+      · cases h
+      · simp only [] at h
+        split at h
+        · rename_i s1 hsent
+          split at h
+          · cases h
+          · cases h
+            have hs1 : s1.traces = s.traces := by
+              split at hsent
+              all_goals first | exact (sendFromModule_fields _ _ _ _ hsent).2.1 | (cases hsent; rfl) | cases hsent
+            exact hs1
+        · cases h
+        · cases h
+
+theorem createVA_traces (s : State) (f to : Addr) (c : List (String × Option Int)) (a b : Int) (res : Res)
+    (h : createVA s f to c a b = .ok res) : res.st.traces = s.traces := by
+  unfold createVA at h
+  split at h
+  · cases h
+  · simp only [] at h
+    split at h
+    · cases h
+    · split at h
+      · cases h
+      · split at h
+        · rename_i s2 hsend
+          cases h
+          have := send_ok_eq _ _ _ _ _ hsend
+          subst this; rfl
+        · cases h
+        · cases h
+
+/-- no other message writes a lineage record: pool creation, withdrawal and direct account
+    creation leave the trace store as it is -/
+theorem other_messages_keep_traces (s : State) (m : Msg) (res : Res) (h : handle s m = .ok res)
+    (hm : match m with | .createPool .. => True | .withdraw .. => True | .createVA .. => True | _ => False) :
+    res.st.traces = s.traces := by
+  cases m with
+  | createPool o name amount dur vt =>
+    simp only [handle] at h
+    cases amount with
+    | none => cases h
+    | some a => exact createPool_traces s o name a dur vt res h
+  | withdraw o =>
+    simp only [handle] at h
+    exact withdrawAll_traces s o res h
+  | createVA f to amount a b =>
+    simp only [handle] at h
+    cases amount with
+    | none => cases h
+    | some c =>
+      simp only [] at h
+      split at h
+      · cases h
+      · exact createVA_traces s f to c a b res h
+  | send _ _ _ _ _ => exact absurd hm (by simp)
+  | split _ _ _ => exact absurd hm (by simp)
+  | move _ _ => exact absurd hm (by simp)
+  | moveDenoms _ _ _ => exact absurd hm (by simp)
 
 theorem lineage_nonvacuous :
     (chain { id := 0, address := "g", genesis := true, fromGenesisPool := false, fromGenesisAccount := false } 3).isGenesisOrFromGenesis = true ∧
